@@ -47,6 +47,10 @@ func (r *Run) Units(label string, n int, workers int, f func(unit int64, rng *ra
 		if r.Only >= 0 && u != r.Only {
 			continue
 		}
+		if r.aborted.Load() {
+			r.Count("units_not_run_after_abort")
+			continue
+		}
 		ch <- u
 	}
 	close(ch)
